@@ -437,6 +437,10 @@ def pattern_corpus():
     c["neg_or_pos"] = Alt(C(["a"], neg=True), L("a"))
     c["two_neg"] = Cat(C(["a"], neg=True), C(["b", " "], neg=True))
     c["neg_whole_charset"] = Cat(L("a"), C(["a", "b"], neg=True))          # over {a,b}: the state after 'a' has no continuation
+    # the same dead continuation inside a NON-empty language (the reachable state after 'a' must not keep mass 0 / receive weight)
+    c["neg_whole_charset_branch"] = Alt(Cat(L("a"), C(["a", "b"], neg=True)), L("b"))
+    c["neg_whole_charset_loop"] = Cat(R(Cat(L("b"), C(["a", "b"], neg=True)), 0, None), L("a"))
+    c["neg_whole_charset_opt"] = Cat(L("a"), R(Cat(L("b"), C([("a", "b")], neg=True)), 0, 1))
     c["dot"] = Dot()
     c["dot_star_a"] = Cat(R(Dot(), 0, None), L("a"))
     c["dot_or_nl"] = R(Alt(Dot(), L("\n")), 0, None)
@@ -562,6 +566,10 @@ def lark_corpus():
     # state (liveness must be a fixed point, not one sweep) - seeded changes C18-3 / C19-5
     c["nested_repetition"] = ('start: T\nT: /((ab)*c)*d/\n', "abcd", "abcd")
     c["block_comment"] = ('start: "x" COMMENT "y"\nCOMMENT: /\\/\\*([^*]|\\*[^\\/])*\\*\\//\n', "/*axy", "/*axy")
+    # terminals named like "<terminal>_<state number>" / "<terminal><state number>" (seeded change C19-12: automaton states keyed by a
+    # string that can equal a terminal's name merge two nonterminals)
+    c["terminal_names_like_states"] = ('start: TOK "-" TOK_0 TOK_1? TOK_2?\nTOK: /ab/\nTOK_0: /c+/\nTOK_1: "d"\nTOK_2: /a?d/\n', "abcd-", "abcd-")
+    c["terminal_names_like_states2"] = ('start: T T0 T1?\nT: /ab+/\nT0: /ba/\nT1: /a+/\nWS: " "\n%ignore WS\n', "ab ", "ab x")
     c["neg_class_charset"] = ('start: A "!"\nA: /[^a!]+/\n', "ab!", "ab!c")
     c["dot_charset"] = ('start: /./ "a"\n', "ab\n", "ab\nc")
     c["dot_core"] = ('start: /.b?/\n', "ab\n", "core")
